@@ -97,7 +97,7 @@ Definition same_but_oneshot (t t' : tcb) : Prop :=
   rto t' = rto t /\ time_wait t' = time_wait t /\ mtu t' = mtu t.
 
 Lemma reply_only_same t s t' : reply_only t s t' -> same_but_oneshot t t' /\ in_segs t' = in_segs t.
-Proof. intros [->|[->|->]]; unfold same_but_oneshot; tsimpl; repeat split. Qed.
+Proof. intros [ -> | [ -> | -> ] ]; unfold same_but_oneshot; tsimpl; repeat split. Qed.
 
 (* C17_unacceptable_inert for process_segment *)
 Lemma unacceptable_inert_ps t s : unacceptable t s ->
@@ -220,18 +220,18 @@ Qed.
 Definition within_snd_window (una wnd : Z) (s : segment) : Prop :=
   wsub (wadd (h_seq (s_hdr s)) (zlen (s_text s))) una <= wnd.
 
-Lemma seg_loop_window fuel : forall t mss rem t', u32 (snd_wnd t) ->
+Lemma seg_loop_window fuel : forall t mss rem t', u32 (snd_wnd t) -> 0 <= mss -> 0 <= rem ->
   seg_loop fuel t mss rem = Ok t' ->
   snd_una t' = snd_una t /\ snd_wnd t' = snd_wnd t /\ fin_pending t' = fin_pending t /\
   exists news, retx t' = retx t ++ news /\
     Forall (fun tx => t_needs tx = true /\ within_snd_window (snd_una t) (snd_wnd t) (t_seg tx)) news.
 Proof.
-  induction fuel as [|f IH]; intros t mss rem t' Hw; cbn [seg_loop]; [discriminate|].
+  induction fuel as [|f IH]; intros t mss rem t' Hw Hmss Hrem; cbn [seg_loop]; [discriminate|].
   set (bytes := Z.min (Z.min mss _) rem).
   destruct (bytes =? 0) eqn:E0.
   { intros H; inversion H; subst. repeat split. exists []. rewrite app_nil_r. split; [reflexivity|constructor]. }
   destruct (65535 <? bytes + 20); [discriminate|].
-  intros H. apply IH in H; [|tsimpl; assumption]. tsimpl.
+  intros H. apply IH in H; [|tsimpl; assumption|assumption|subst bytes; lia]. tsimpl.
   destruct H as (E1 & E2 & E3 & news & E4 & HF).
   repeat split; try assumption.
   eexists. split; [rewrite E4, <- app_assoc; reflexivity|].
@@ -266,10 +266,10 @@ Proof.
                  Forall (fun tx => t_needs tx = true /\
                     (s_text (t_seg tx) <> [] -> within_snd_window (snd_una t) (snd_wnd t) (t_seg tx))) news).
   { revert E1. tsimpl. destruct (segmentizes (st t)).
-    - destruct (mtu t <? SPACE_FOR_HEADERS); [discriminate|].
+    - destruct (mtu t <? SPACE_FOR_HEADERS) eqn:Emtu; [discriminate|].
       destruct (seg_loop _ _ _ _) as [t0| | |] eqn:El; try discriminate.
       intros H; inversion H; subst; clear H.
-      apply seg_loop_window in El; [|tsimpl; assumption]. tsimpl.
+      apply seg_loop_window in El; [|tsimpl; assumption|lia|apply zlen_nonneg]. tsimpl.
       destruct El as (U1 & U2 & U3 & news & U4 & HF).
       assert (HF' : Forall (fun tx => t_needs tx = true /\
                  (s_text (t_seg tx) <> [] -> within_snd_window (snd_una t) (snd_wnd t) (t_seg tx))) news).
